@@ -58,7 +58,25 @@ var (
 	fWrap        = flag.Bool("wrap", false, "be a wrapper (task leader) around the device: the OCC server runs in a forked child of the same group; "+
 		"deaths hit the WRAPPER while the device stays alive and keeps its connection open")
 	fWrapped = flag.Bool("wrapped", false, "internal: the device forked by --wrap")
+	fSlowOn  = flag.String("slow-on", "", "this device step takes --slow-ms and is then performed normally")
+	fSlowMs  = flag.Int("slow-ms", 0, "duration of the --slow-on step")
 )
+
+// stateLog appends one line per device step to $VERIF_C17_STATELOG: "B <event>" when a step starts
+// being handled, "E <event>|<new state>" when it is done, "R <event>|<state>" when it is refused.
+// The harness reads the device's REAL state and whether it is still moving from this file.
+func stateLog(kind, evt, state string) {
+	p := os.Getenv("VERIF_C17_STATELOG")
+	if p == "" {
+		return
+	}
+	f, err := os.OpenFile(p, os.O_APPEND|os.O_CREATE|os.O_WRONLY, 0o644)
+	if err != nil {
+		return
+	}
+	fmt.Fprintf(f, "%s %s|%s\n", kind, evt, state)
+	f.Close()
+}
 
 // die ends the process the way the flags say: exit(exit-code) or SIGKILL to itself.
 func dieNow() {
@@ -180,7 +198,9 @@ func (s *server) Transition(ctx context.Context, req *pb.TransitionRequest) (*pb
 		select {} // never answers; the RPC ends when the process dies
 	}
 	cur := s.current()
+	stateLog("B", evt, cur)
 	if req.GetSrcState() != cur {
+		stateLog("R", evt, cur)
 		return nil, status.Errorf(codes.InvalidArgument, "transition not possible: state mismatch: source: %s current: %s", req.GetSrcState(), cur)
 	}
 	table := directTable
@@ -189,7 +209,11 @@ func (s *server) Transition(ctx context.Context, req *pb.TransitionRequest) (*pb
 	}
 	dst, ok := table[edge{cur, evt}]
 	if !ok {
+		stateLog("R", evt, cur)
 		return nil, status.Errorf(codes.InvalidArgument, "no transition %q from %s", evt, cur)
+	}
+	if *fSlowOn != "" && evt == *fSlowOn {
+		time.Sleep(time.Duration(*fSlowMs) * time.Millisecond)
 	}
 	if *fTransDelay > 0 {
 		time.Sleep(time.Duration(*fTransDelay) * time.Millisecond)
@@ -198,6 +222,7 @@ func (s *server) Transition(ctx context.Context, req *pb.TransitionRequest) (*pb
 	s.state = dst
 	isFinal := dst == s.final
 	s.mu.Unlock()
+	stateLog("E", evt, dst)
 	if isFinal {
 		select {
 		case <-s.doneCh:
